@@ -22,12 +22,16 @@ ID = 'C13'
 LEVEL = 'exploration'
 DECIDING = ['tap:Obs.export_jackknife', 'tap:Obs.export_bootstrap', 'tap:import_jackknife', 'tap:import_bootstrap',
             'export_jk_judged', 'export_bs_judged', 'import_jk_judged', 'import_bs_judged', 'seeded_tables_recomputed',
-            'import_bs_rejections_required', 'jackknife_variance_identities']
+            'import_bs_rejections_required', 'jackknife_variance_identities', 'held_results_rechecked', 'history_requests',
+            'scale_relations', 'saved_tables_fed_back']
 RULE = ('cases: single-chain observables (names with and without replica part, non-ASCII name), length 5 / 6-30 / 31-500 (quick: import_bootstrap up to 120), '
         'configuration lists contiguous / strided / gapped / irregular given as range, list or ndarray, data white / AR(1) / constant / alternating / counts with exact zeros / '
         '1e-8 / 1e8 / distinct / magnitudes mixed over 12 decades; primary observables and derived ones (same chain, different lists); resampling tables: random, '
         'rank-deficient (repeated rows, fewer rows than configurations, a configuration never drawn, one row) for export, full column rank with condition <= 1e5 for import, '
-        'int64 / int32 / nested lists; seeded export with 1..500 samples. non-trivial: the chain has non-zero variance (or a rejection was required); '
+        'int64 / int32 / int16 / intp / uint8 / nested lists / tuples, C / Fortran / transposed / strided memory layout; sample, jackknife and bootstrap arrays also as strided and negative-stride views; '
+        'configuration numbers starting at 0 and above 1e7; seeded export with 1..500 samples, with save_rng and the saved numbers fed back; histories (same name and sample number but other length, same length other name '
+        'out of a prefix family, same name / length / first / last configuration but other interior and data; seeded, explicit-table and jackknife requests and re-analyses in random order, every result held and re-requested); '
+        'the same chain multiplied by 2^+-27, 2^+-60, 1e+-8, 1e+-15; every exported array is kept and re-checked after later calls. non-trivial: the chain has non-zero variance (or a rejection was required); '
         'distinct = digest of (function, chain name, configuration list, data, table)')
 ASSUMPTIONS = ['default resampling table = numpy.random.default_rng(md5(chain name) & 0xFFFFFFFF).integers(0, N, (samples, N)) - the documented convention (docstring: "based on the md5 hash of the ensemble name"), adopted by the reference',
                'direct arithmetic compared at 1e-11 of max|sample|; import_jackknife (sum of N numbers minus (N-1) J_i) at 1e-12 N max|sample|; import_bootstrap (least squares) at 1e-11 cond max|sample|, tables with cond > 1e5 are not judged',
@@ -199,13 +203,15 @@ def setup(ctx):
 
 
 def teardown(ctx):
+    check_held(ctx)
     taps.report(ctx)
     taps.remove_all()
 
 
 def plan(tier):
     m = 1 if tier == 'quick' else 12
-    return [('jk', 900 * m), ('bs_table', 600 * m), ('bs_seed', 450 * m), ('bs_import', 600 * m), ('derived', 300 * m), ('bs_reject', 150 * m)]
+    return [('jk', 900 * m), ('bs_table', 600 * m), ('bs_seed', 450 * m), ('bs_import', 600 * m), ('derived', 300 * m), ('bs_reject', 150 * m),
+            ('history', 120 * m), ('scale', 150 * m)]
 
 
 # ------------------------------------------------------------------------------------------
@@ -222,7 +228,10 @@ def length_class(rng, idx, nmax):
 def make_chain(rng, n, lkind=None, dkind=None):
     lkind = lkind or str(rng.choice(gen.IDL_KINDS))
     dkind = dkind or str(rng.choice(DATA))
-    idl = gen.rand_idl(rng, n, lkind)
+    u = rng.random()
+    # boundary configuration numbers: lists starting at 0, and very large numbers
+    start = 0 if u < 0.08 else (10 ** 7 + int(rng.integers(0, 1000)) if u < 0.16 else None)
+    idl = gen.rand_idl(rng, n, lkind, start=start)
     cfgs = [int(c) for c in idl]
     if dkind == 'mixedmag':
         x = rng.normal(size=len(cfgs)) * 10.0 ** rng.uniform(-6, 6, size=len(cfgs))
@@ -235,8 +244,42 @@ def make_obs(rng, n, name=None, lkind=None, dkind=None):
     name = name or str(rng.choice(NAMES))
     idl, cfgs, chain, lkind, dkind = make_chain(rng, n, lkind, dkind)
     x = np.array([chain[c] for c in cfgs])
-    o = PE.Obs([x], [name], idl=[idl])
+    o = PE.Obs([array_view(rng, x, allow_list=True)], [name], idl=[idl])
     return o, name, idl, cfgs, chain, lkind, dkind
+
+
+def array_view(rng, a, allow_list=False):
+    """the same numbers in another representation: strided view, negative-stride view, (list)"""
+    a = np.asarray(a, dtype=float)
+    u = rng.random()
+    if u < 0.15:
+        big = np.zeros(2 * len(a))
+        big[::2] = a
+        return big[::2]
+    if u < 0.30:
+        return a[::-1].copy()[::-1]
+    if u < 0.40 and allow_list:
+        return [float(v) for v in a]
+    return a
+
+
+HELD = []          # (description, array handed out by the library, copy taken at that moment)
+
+
+def hold(what, arr):
+    if isinstance(arr, np.ndarray):
+        HELD.append((what, arr, arr.copy()))
+        if len(HELD) > 60:
+            del HELD[:20]
+
+
+def check_held(ctx):
+    """results handed out earlier must still be what they were (no shared work buffers)"""
+    for what, arr, cp in HELD:
+        ctx.count('held_results_rechecked')
+        ctx.ev()
+        if not np.array_equal(arr, cp, equal_nan=True):
+            ctx.violation(what + ':returned-array-changed-by-later-calls', {'now_head': arr[:4], 'was_head': cp[:4]})
 
 
 def nontrivial(ctx, chain, *parts):
@@ -291,13 +334,15 @@ def memory_layout(rng, t):
     return t
 
 
-def table_form(rng, t):
-    f = str(rng.choice(['int64', 'int64', 'int32', 'lists']))
-    if f == 'int64':
-        return t.astype(np.int64), f
-    if f == 'int32':
-        return t.astype(np.int32), f
-    return [[int(j) for j in row] for row in t], f
+def table_form(rng, t, arrays_only=False):
+    n = t.shape[1]
+    forms = ['int64', 'int64', 'int32', 'int16', 'intp'] + (['uint8'] if n <= 255 else []) + ([] if arrays_only else ['lists', 'tuples'])
+    f = str(rng.choice(forms))
+    if f == 'lists':
+        return [[int(j) for j in row] for row in t], f
+    if f == 'tuples':
+        return tuple(tuple(int(j) for j in row) for row in t), f
+    return t.astype(getattr(np, f)), f
 
 
 # ------------------------------------------------------------------------------------------
@@ -307,7 +352,9 @@ def case_jk(ctx, idx, rng):
     o, name, idl, cfgs, chain, lkind, dkind = make_obs(rng, n, lkind=gen.IDL_KINDS[(idx // 3) % 4])
     x = [chain[c] for c in cfgs]
     sc = sample_scale(x)
+    check_held(ctx)
     jk = o.export_jackknife()
+    hold('export_jackknife', jk)
     ctx.cell('export_jk', lkind, lc)
     exp = R.jackknife(x)
     ok = ctx.require(np.shape(jk) == (n + 1,), 'export_jackknife:shape', lambda: {'shape': np.shape(jk), 'N': n})
@@ -327,7 +374,8 @@ def case_jk(ctx, idx, rng):
     ctx.close(var_exported, var_ref, 'jackknife-variance-differs-from-squared-S0-error', 'exported samples vs sum (x-mean)^2 / N(N-1)', rtol=1e-8, atol=noise,
               detail={'N': n, 'list': lkind, 'data': dkind})
     # import with the configuration list (in the form it was given) and without
-    imp = PE.import_jackknife(jk, name, idl=[idl]) if idx % 2 else PE.import_jackknife(jk, name, [idl])
+    jv = array_view(rng, jk)
+    imp = PE.import_jackknife(jv, name, idl=[idl]) if idx % 2 else PE.import_jackknife(jv, name, [idl])
     ctx.cell('import_jk', lkind, lc)
     compare_restored(ctx, imp, name, cfgs, x, exp[0], 'import_jackknife', 1e-12 * n, True)
     imp2 = PE.import_jackknife(jk, name)
@@ -350,7 +398,9 @@ def case_bs_table(ctx, idx, rng):
         k = min(k, 150)
     t = rand_table(rng, k, n, how)
     tf, form = table_form(rng, t)
+    check_held(ctx)
     bs = o.export_bootstrap(k, random_numbers=tf)
+    hold('export_bootstrap', bs)
     ctx.cell('export_bs_table', lkind, lc)
     ctx.cell('table', how, form)
     sc = sample_scale(x)
@@ -371,8 +421,32 @@ def case_bs_seed(ctx, idx, rng):
     x = [chain[c] for c in cfgs]
     k = int(rng.choice([1, 2, 17, 100, 500]))
     default = k == 500 and rng.random() < 0.7
+    check_held(ctx)
     bs = o.export_bootstrap() if default else o.export_bootstrap(samples=k)
+    hold('export_bootstrap', bs)
     ctx.cell('export_bs_seeded', lkind, lc)
+    if idx % 5 == 0 and k <= 100:
+        # the option that saves the random numbers must not change the export, and feeding the saved numbers back in
+        # must reproduce it (that is what makes a seeded export reproducible elsewhere)
+        import os
+        import tempfile
+        fd, path = tempfile.mkstemp(prefix='vmon_c13_', suffix='.txt', dir=os.environ.get('VERIF_WORK', '/var/tmp'))
+        os.close(fd)
+        try:
+            bsv = o.export_bootstrap(samples=k, save_rng=path)
+            ctx.require(np.array_equal(bs, bsv), 'export_bootstrap:save_rng-changes-the-export', lambda: {'name': name, 'N': n, 'samples': k})
+            saved = np.atleast_2d(np.loadtxt(path, dtype=np.int64))
+            if k == 1 or n == 1:
+                saved = saved.reshape(k, n)
+            back = o.export_bootstrap(k, random_numbers=saved)
+            ctx.count('saved_tables_fed_back')
+            ctx.close(back, bs, 'export_bootstrap:saved-random-numbers-do-not-reproduce-the-export', 'save_rng file fed back', rtol=1e-13, scale=sample_scale(x), atol=1e-300,
+                      detail={'name': name, 'N': n, 'samples': k})
+        finally:
+            try:
+                os.remove(path)
+            except OSError:
+                pass
     sc = sample_scale(x)
     t = R.default_table(name, k, n)
     if not ctx.require(np.shape(bs) == (k + 1,), 'export_bootstrap:shape', lambda: {'shape': np.shape(bs), 'samples': k}):
@@ -423,8 +497,11 @@ def case_bs_import(ctx, idx, rng):
         bs = o.export_bootstrap(k, random_numbers=t)
     rank, cond = R.rank_and_condition(t, n)
     ctx.cell('import_bs', lkind, lc)
+    ctx.cell('import_bs', 'samples==configurations' if k == n else 'samples>configurations')
+    ti, form = table_form(rng, np.asarray(t), arrays_only=True)
+    ctx.cell('import_table', form)
     try:
-        imp = PE.import_bootstrap(bs, name, t)
+        imp = PE.import_bootstrap(array_view(rng, bs), name, ti)
     except REJECT as e:
         ctx.ev()
         ctx.violation('import_bootstrap:rejects-a-determined-table', {'N': n, 'samples': k, 'rank': rank, 'exception': repr(e)})
@@ -467,7 +544,11 @@ def case_derived(ctx, idx, rng):
     if len(sub) < 5:
         sub = cfgs
     b = PE.Obs([rng.normal(size=len(sub)) + 2.0], [name], idl=[sub])
-    o = np.sin(a) * b + a / (b * b + 1.0)
+    if idx % 3 == 2:
+        o = a * a + a - b * a          # the same observable in several slots of one operation
+        ctx.cell('derived', 'same-object-in-several-slots')
+    else:
+        o = np.sin(a) * b + a / (b * b + 1.0)
     sn = snap(o)
     ucfgs, d, rv = sn['chains'][name]
     x = [float(rv + v) for v in d]
@@ -496,6 +577,106 @@ def case_derived(ctx, idx, rng):
     ctx.sample({'function': 'derived observable export/import', 'name': name, 'N': len(x), 'union_of': [len(cfgs), len(sub)]})
 
 
+TRAP_NAMES = ['A', 'A1', 'AB', 'A|r1', 'A|r10', 'A|r2', 'A|r01']
+
+
+def case_history(ctx, idx, rng):
+    """Histories that a cache keyed by a summary would get wrong: observables that agree in name and number of bootstrap
+    samples but differ in length, agree in length but differ in name (names sharing prefixes), agree in name, length, first and
+    last configuration but differ in the interior and in the data; requested in random order, interleaved with explicit tables,
+    jackknife exports and analyses with other parameters; every request is judged by the monitors, every result is kept and
+    must equal a later repetition of the same request bit for bit."""
+    na, nb = [str(v) for v in rng.choice(TRAP_NAMES, size=2, replace=False)]
+    n1 = int(rng.integers(5, 14))
+    n2 = n1 + int(rng.integers(1, 4))
+    pool = []
+    o, _, _, cfgs, chain, _, _ = make_obs(rng, n1, name=na, lkind='contig')
+    pool.append((o, na))
+    pool.append((make_obs(rng, n2, name=na)[0], na))                      # same name, other length
+    pool.append((make_obs(rng, n1, name=nb)[0], nb))                      # same length, other name
+    # same name, length, first and last configuration as the first one - other interior, other data
+    span = list(range(cfgs[0], cfgs[0] + 3 * n1))
+    inner = sorted(rng.choice(span[1:-1], size=n1 - 2, replace=False).tolist())
+    twin_cfgs = [span[0]] + inner + [span[-1]]
+    pool.append((PE.Obs([rng.normal(size=n1) * 3 + 1], [na], idl=[twin_cfgs]), na))
+    first = PE.Obs([rng.normal(size=n1)], [na], idl=[list(range(span[0], span[0] + n1 - 1)) + [span[-1]]])
+    pool.append((first, na))
+    ks = [3, 17]
+    requests = []
+    for _ in range(14):
+        j = int(rng.integers(0, len(pool)))
+        mode = str(rng.choice(['seeded', 'seeded', 'seeded', 'table', 'jackknife', 'analyse']))
+        requests.append((j, mode, int(rng.choice(ks))))
+    held = {}
+    tables = {}
+    for j, mode, k in requests + requests[::-1]:
+        o, name = pool[j]
+        ctx.count('history_requests')
+        if mode == 'analyse':
+            o.gamma_method(S=float(rng.choice([0, 1, 2, 3])))       # state stored on the object must not matter
+            continue
+        if mode == 'seeded':
+            res = o.export_bootstrap(samples=k)
+        elif mode == 'table':
+            key = (j, k)
+            if key not in tables:
+                tables[key] = rng.integers(0, o.N, size=(k, o.N))
+            res = o.export_bootstrap(k, random_numbers=tables[key])      # an explicit table wins over the seeding, whatever came before
+        else:
+            res = o.export_jackknife()
+        key = (j, mode, k if mode != 'jackknife' else 0)
+        if key in held:
+            ctx.ev()
+            if not np.array_equal(held[key][0], res):
+                ctx.violation('history:same-request-gives-different-samples-later', {'request': [name, o.N, mode, k]})
+        else:
+            held[key] = (res, res.copy())
+    for key, (res, cp) in held.items():
+        ctx.ev()
+        ctx.count('held_results_rechecked')
+        if not np.array_equal(res, cp):
+            ctx.violation('history:returned-array-changed-by-later-calls', {'request': list(key)})
+    ctx.cell('history', 'names', 'prefix' if na.split('|')[0] in nb or nb.split('|')[0] in na else 'other')
+    ctx.nontrivial.add(digest('history', na, nb, n1, n2, requests))
+    ctx.sample({'history': [[pool[j][1], pool[j][0].N, mode, k] for j, mode, k in requests]})
+
+
+def case_scale(ctx, idx, rng):
+    """the same chain multiplied by c: every exported number is multiplied by c, the import restores c x (absolute
+    tolerances inside the library would show up as scale dependence)"""
+    n = int(rng.choice([5, 9, 30, 80]))
+    name = str(rng.choice(NAMES))
+    idl, cfgs, chain, lkind, dkind = make_chain(rng, n, dkind=str(rng.choice(['white', 'ar', 'distinct', 'counts', 'alt'])))
+    x = np.array([chain[c] for c in cfgs])
+    c = float([2.0 ** -27, 2.0 ** 27, 1e-8, 1e8, 2.0 ** -60, 2.0 ** 60, 1e-15, 1e15][idx % 8])
+    k = int(rng.choice([n, 2 * n]))
+    t = rand_table(rng, k, n)
+    base = PE.Obs([x], [name], idl=[idl])
+    scaled = PE.Obs([c * x], [name], idl=[idl])
+    jb, js = base.export_jackknife(), scaled.export_jackknife()
+    bb, bs = base.export_bootstrap(k, random_numbers=t), scaled.export_bootstrap(k, random_numbers=t)
+    sb, ss = base.export_bootstrap(samples=k), scaled.export_bootstrap(samples=k)
+    sc = sample_scale(x) * abs(c)
+    ctx.count('scale_relations')
+    ctx.cell('scale', 'c=%g' % c)
+    ctx.close(js, c * jb, 'export_jackknife:not-homogeneous-in-the-data', 'c = %g' % c, rtol=1e-13, scale=sc, atol=0.0)
+    ctx.close(bs, c * bb, 'export_bootstrap:not-homogeneous-in-the-data', 'c = %g, table' % c, rtol=1e-13, scale=sc, atol=0.0)
+    ctx.close(ss, c * sb, 'export_bootstrap:not-homogeneous-in-the-data', 'c = %g, seeded' % c, rtol=1e-13, scale=sc, atol=0.0)
+    xs = [float(v) for v in c * x]
+    imp = PE.import_jackknife(js, name, [idl])
+    compare_restored(ctx, imp, name, cfgs, xs, R.mean(xs), 'import_jackknife', 1e-12 * n, True)
+    rank, cond = R.rank_and_condition(t, n)
+    if rank == n and cond <= 1e5:
+        imb = PE.import_bootstrap(bs, name, t)
+        compare_restored(ctx, imb, name, cfgs, xs, R.mean(xs), 'import_bootstrap', 1e-11 * cond, False)
+    scaled.gamma_method(S=0)
+    base.gamma_method(S=0)
+    ctx.close(scaled.dvalue, abs(c) * base.dvalue, 'jackknife-variance-differs-from-squared-S0-error', 'scaled chain', rtol=1e-12, atol=0.0)
+    ctx.close(scaled.dvalue ** 2, R.jackknife_variance([float(v) for v in js]), 'jackknife-variance-differs-from-squared-S0-error', 'scaled chain, exported samples', rtol=1e-8,
+              atol=(1e-13 * sc) ** 2)
+    nontrivial(ctx, chain, 'scale', name, c)
+
+
 def run_case(ctx, kind, idx, rng):
     if kind == 'jk':
         case_jk(ctx, idx, rng)
@@ -509,5 +690,9 @@ def run_case(ctx, kind, idx, rng):
         case_bs_reject(ctx, idx, rng)
     elif kind == 'derived':
         case_derived(ctx, idx, rng)
+    elif kind == 'history':
+        case_history(ctx, idx, rng)
+    elif kind == 'scale':
+        case_scale(ctx, idx, rng)
     else:
         raise ValueError(kind)
